@@ -191,9 +191,148 @@ def r3_segments(ctx):
     return r
 
 
+# ---------------------------------------------------------------------------------------------- evaluation (R0)
+
+LOCALES = ["en", "fr"]            # en is the default locale (no prefix)
+BASES = {"/": [], "": [], "/foo/": ["foo"], "/foo": ["foo"], "foo": ["foo"], "foo/": ["foo"]}
+# routes: per locale the segments of the route; `:x` parameter, `*x` splat, words are static (localized when they differ)
+ROUTES = [
+    {"en": ["", ":user", ":repo"], "fr": ["", ":user", ":repo"]},          # declared first: must not capture shorter paths
+    {"en": [""], "fr": [""]},
+    {"en": ["", "about"], "fr": ["", "a-propos"]},
+    {"en": ["", "blog", ":id", "edit"], "fr": ["", "blogue", ":id", "modifier"]},
+    {"en": ["", "docs", "*rest"], "fr": ["", "docs", "*rest"]},
+    {"en": ["", "entries"], "fr": ["", "entries"]},                         # starts with the letters of a locale name
+    {"en": ["", "menu", "french-fries", ":n"], "fr": ["", "menu", "frites", ":n"]},
+]
+PARAMS = {"user": "bob", "repo": "site", "id": "7", "n": "42"}
+SPLATS = [[], ["a"], ["a", "b.html"]]
+
+
+def _seg_value(x):
+    from rules.absint import C
+    S = lambda v: ("str", v)  # noqa: E731
+    if x.startswith(":"):
+        return C("Param", S(x[1:]))
+    if x.startswith("*"):
+        return C("Splat", S(x[1:]))
+    return C("Static", S(x))
+
+
+def _concrete(route_segs, splat):
+    out = []
+    for x in route_segs:
+        if x == "":
+            continue
+        if x.startswith(":"):
+            out.append(PARAMS[x[1:]])
+        elif x.startswith("*"):
+            out.extend(splat)
+        else:
+            out.append(x)
+    return out
+
+
+def _url(base_segs, locale, route, splat):
+    segs = list(base_segs) + ([] if locale == "en" else [locale]) + _concrete(route[locale], splat)
+    return "/" + "/".join(segs)
+
+
+def r0_urls(ctx):
+    """abstract evaluation (rules/absint.py) of get_new_path / get_locale_from_path - with PathBuilder, localize_path,
+    match_path_segments and construct_path_segments under them - on every (base path form, route, locale pair); the
+    expected URL is built from the statement: base + new prefix (none for the default locale) + the route's segments in
+    the new locale + the unchanged query and fragment"""
+    from rules import absint
+    from rules.absint import AEval, C, CF, L, T
+    r = Rule("C14.R0", "locale switch rewrites exactly the prefix and the localized segments, for every base-path form",
+             "`rewrites only that prefix (absent for the default locale) and the localized segments, preserving every other "
+             "segment, the query string and the fragment, and switching back yields the original URL`; `a locale is read only "
+             "when the first path segment after the base path equals a locale name exactly`", floor=3)
+    ast = ctx.ast
+    funcs = absint.file_funcs(ast, F, impl_self="PathBuilder")
+    for n in ("get_new_path", "get_locale_from_path", "localize_path", "match_path_segments", "construct_path_segments", "push", "build", "new"):
+        if n not in funcs:
+            r.missing("routing::" + n)
+            return r, False, "anchor missing"
+    S = lambda v: ("str", v)  # noqa: E731
+    tables = {l: L(*[L(*[_seg_value(x) for x in rt[l]]) for rt in ROUTES]) for l in LOCALES}
+    segs = CF("RouteSegments", **{"0": L(*[T(S(l), tables[l]) for l in LOCALES])})
+
+    def new_path(pathname, search, hashv, base, new_locale, cur):
+        ev = AEval(funcs=funcs, builtins={
+            "with_untracked": lambda rv, a: ev.apply(a[0], [rv]), "with": lambda rv, a: ev.apply(a[0], [rv]),
+            "lock": lambda rv, a: C("Ok", rv), "read": lambda rv, a: C("Ok", rv),
+            "unwrap_or_default": lambda rv, a: rv[2][0] if rv[0] == "ctor" and rv[1] == "Some" else S("en")})
+        ev.path_builtins = {"L::default": lambda a: S("en"), "L::get_all": lambda a: L(*[S(x) for x in LOCALES])}
+        loc = CF("Location", pathname=S(pathname), search=S(search), hash=S(hashv))
+        return ev.run_fn(funcs["get_new_path"], [loc, S(base), S(new_locale), C("Some", S(cur)) if cur else C("None"), segs])
+
+    def locale_of(path, base):
+        ev = AEval(funcs=funcs)
+        ev.path_builtins = {"L::get_all": lambda a: L(*[S(x) for x in LOCALES]), "L::default": lambda a: S("en")}
+        return ev.run_fn(funcs["get_locale_from_path"], [S(path), S(base)])
+    bad = {}
+    n_sw = n_rd = 0
+    for base, bsegs in BASES.items():
+        for ri, route in enumerate(ROUTES):
+            splats = SPLATS if any(x.startswith("*") for x in route["en"]) else [[]]
+            for splat in splats:
+                for (search, hashv) in (("", ""), ("tab=1&x=%2F", "sec-2")):
+                    for a in LOCALES:
+                        for b_ in LOCALES:
+                            src = _url(bsegs, a, route, splat)
+                            want = _url(bsegs, b_, route, splat) + ("?" + search if search else "") + ("#" + hashv if hashv else "")
+                            got = new_path(src, search, hashv, base, b_, a)
+                            if isinstance(got, str):
+                                return r, False, got
+                            n_sw += 1
+                            if got != S(want):
+                                kind = "base-path" if bsegs and got != S(want) and new_path(_url([], a, route, splat), search, hashv, "/", b_, a) == S(_url([], b_, route, splat) + ("?" + search if search else "") + ("#" + hashv if hashv else "")) else \
+                                    ("query-fragment" if (search or hashv) and new_path(src, "", "", base, b_, a) == S(_url(bsegs, b_, route, splat)) else "rewrite")
+                                bad.setdefault(kind, "base path %r, route %s, %s -> %s: `%s%s%s` becomes `%s`, expected `%s`" % (
+                                    base, "/".join(route["en"]) or "/", a, b_, src, "?" + search if search else "", "#" + hashv if hashv else "", absint.fmt(got), want))
+            # reading the locale back from the URL
+            for a in LOCALES:
+                src = _url(bsegs, a, route, [])
+                got = locale_of(src, base)
+                if isinstance(got, str):
+                    return r, False, got
+                n_rd += 1
+                want = C("Some", S(a)) if a != "en" else C("None")
+                if got != want:
+                    bad.setdefault("read-locale", "base path %r: the locale of `%s` is read as %s, expected %s" % (base, src, absint.fmt(got), absint.fmt(want)))
+        for near in ("english", "frites/x", "fr-CA/x", "e", "xfr/fr", ""):
+            src = "/" + "/".join(bsegs + [near]) if near else "/" + "/".join(bsegs)
+            got = locale_of(src, base)
+            if isinstance(got, str):
+                return r, False, got
+            n_rd += 1
+            if got != C("None"):
+                bad.setdefault("read-locale", "base path %r: `%s` does not start with a locale segment, yet %s is read" % (base, src, absint.fmt(got)))
+        got = locale_of("/" + "/".join(bsegs + ["en", "about"]), base)
+        if not isinstance(got, str) and got != C("Some", S("en")):
+            bad.setdefault("read-locale", "base path %r: an explicit default-locale prefix is read as %s" % (base, absint.fmt(got)))
+    for kind, msg in sorted(bad.items()):
+        r.viol("R0:get_new_path#" + kind if kind != "read-locale" else "R0:get_locale_from_path#whole-segment", msg, file=F, line=funcs["get_new_path"].line)
+    if not bad:
+        r.inst("get_new_path", "%d switches (6 base-path forms x %d routes x locale pairs x with/without query+fragment): prefix and localized segments rewritten, everything else kept" % (n_sw, len(ROUTES)))
+        r.inst("round trip", "the expected URL of A->B is the source URL of B->A in the same table: switching back yields the original URL")
+        r.inst("get_locale_from_path", "%d URLs: a locale is read exactly when the first segment after the base path is a locale name" % n_rd)
+    return r, True, None
+
+
 def run(ctx):
+    r0, ok, why = r0_urls(ctx)
+    if ok:
+        return [r0]
+    # a construct outside rules/absint.py: fall back to the structural clauses on the same functions
     prog = ctx.mir("main")
-    return [r1_whole_segment(ctx, prog), r2_rewrite(ctx), r3_segments(ctx)]
+    rules = [r1_whole_segment(ctx, prog), r2_rewrite(ctx), r3_segments(ctx)]
+    if not r0.violations:
+        r0.inst("evaluation not available", "fallback to structural rules R1-R3: %s" % str(why)[:160])
+        r0.floor = 1
+    return [r0] + rules
 
 
 MANIFEST_ENTRY = {
